@@ -1,18 +1,12 @@
 (* PipesRoles.v — local invariants of the thread roles occurring in the Fork / Split / Join
    programs (feeder, reader, waiter, the three helper goroutines), stated over the "view" each
    role has of the shared state, and their preservation by the role's own micro-steps. *)
-From Verif Require Import Base Conc PipesGen.
+From Verif Require Import Base Conc Pipes PipesGen.
 Close Scope Z_scope.
 Open Scope nat_scope.
 
-(* values delivered (ok = true) among the results of a thread, in order *)
-Fixpoint recv (rs : list result) : list Z :=
-  match rs with
-  | [] => []
-  | RHead v true :: t => v :: recv t
-  | _ :: t => recv t
-  end.
-Definition saw_closed (rs : list result) : Prop := exists v, In (RHead v false) rs.
+Notation recv := received.
+Notation saw_closed := told_closed.
 
 Lemma recv_app a b : recv (a ++ b) = recv a ++ recv b.
 Proof.
@@ -162,7 +156,7 @@ Inductive forkh_ok (vs : list Z) (k : nat) (th : thread) (pop0 : list Z) (cl0 : 
     (forall j, 1 <= j <= k -> app j = pop0) -> pop0 = vs -> cl0 = true ->
     (forall j, 1 <= j <= m -> cl j = true) -> (forall j, m < j <= k -> cl j = false) ->
     forkh_ok vs k th pop0 cl0 app cl
-| HF_done : tph th = PIdle -> tcalls th = [] -> tloop th = LNone ->
+| HF_done : tph th = PIdle -> tcalls th = [] -> tloop th = LNone -> In RDoneWg (tres th) ->
     (forall j, 1 <= j <= k -> app j = pop0) -> pop0 = vs -> cl0 = true ->
     (forall j, 1 <= j <= k -> cl j = true) -> forkh_ok vs k th pop0 cl0 app cl.
 
@@ -182,7 +176,7 @@ Proof.
   intros Hk Hok Hq Hdrain Hstep Hns. pose proof (step_some_lt _ _ _ Hstep) as Ht.
   unfold step in Hstep. unfold view_app, view_cl in *.
   destruct Hok as [m v Hph Hc Hl Hm Ha1 Ha2 Hop|m v Hph Hc Hl Hm Ha1 Ha2 Hop|Hph Hc Hl Ha Hop
-                  |m Hph Hc Hl Hm Ha Hvs Hc0 Hc1 Hc2|Hph Hc Hl Ha Hvs Hc0 Hc1];
+                  |m Hph Hc Hl Hm Ha Hvs Hc0 Hc1 Hc2|Hph Hc Hl Hdn Ha Hvs Hc0 Hc1];
     rewrite Hph, Hc in Hstep.
   - (* HF_run *)
     destruct (Nat.eq_dec m k) as [->|Hne].
@@ -228,7 +222,7 @@ Proof.
     destruct (Nat.eq_dec m k) as [->|Hne].
     + unfold close_calls in Hstep. rewrite Nat.sub_diag in Hstep. simpl in Hstep.
       injection Hstep as <-. gs.
-      apply HF_done; simpl; auto.
+      apply HF_done; simpl; auto. apply in_or_app; simpl; auto.
     + unfold close_calls in Hstep. rewrite seq_S_cons in Hstep by lia. simpl in Hstep.
       rewrite (Hc2 (S m)) in Hstep by lia.
       injection Hstep as <-. gs. simpl.
@@ -246,7 +240,7 @@ Lemma forkh_ops vs k th pop0 cl0 app cl kk q :
 Proof.
   intros Hok. unfold opof.
   destruct Hok as [m v Hph Hc Hl Hm Ha1 Ha2 Hop|m v Hph Hc Hl Hm Ha1 Ha2 Hop|Hph Hc Hl Ha Hop
-                  |m Hph Hc Hl Hm Ha Hvs Hc0 Hc1 Hc2|Hph Hc Hl Ha Hvs Hc0 Hc1];
+                  |m Hph Hc Hl Hm Ha Hvs Hc0 Hc1 Hc2|Hph Hc Hl Hdn Ha Hvs Hc0 Hc1];
     rewrite Hph, ?Hc.
   - destruct (Nat.eq_dec m k) as [->|Hne]; unfold fork_calls.
     + rewrite Nat.sub_diag. simpl. intros E; injection E as <- <-. auto.
@@ -270,7 +264,7 @@ Proof.
   assert (Ha : forall j, 1 <= j <= k -> app' j = app j) by (intros; now apply H).
   assert (Hcl : forall j, 1 <= j <= k -> cl' j = cl j) by (intros; now apply H).
   destruct Hok as [m v Hph Hc Hl Hm Ha1 Ha2 Hop|m v Hph Hc Hl Hm Ha1 Ha2 Hop|Hph Hc Hl Ha0 Hop
-                  |m Hph Hc Hl Hm Ha0 Hvs Hc0 Hc1 Hc2|Hph Hc Hl Ha0 Hvs Hc0 Hc1].
+                  |m Hph Hc Hl Hm Ha0 Hvs Hc0 Hc1 Hc2|Hph Hc Hl Hdn Ha0 Hvs Hc0 Hc1].
   - apply HF_run with m v; auto; intros j Hj; rewrite ?Ha, ?Hcl by lia; auto.
   - apply HF_send with m v; auto; intros j Hj; rewrite ?Ha, ?Hcl by lia; auto.
   - apply HF_pop; auto; intros j Hj; rewrite ?Ha, ?Hcl by lia; auto.
@@ -303,7 +297,7 @@ Inductive splith_ok (vs : list Z) (k : nat) (th : thread) (pop0 : list Z) (cl0 :
     D = pop0 -> (forall j, 1 <= j <= k -> app j = rr k (pred j) D) -> pop0 = vs -> cl0 = true ->
     (forall j, 1 <= j <= m -> cl j = true) -> (forall j, m < j <= k -> cl j = false) ->
     splith_ok vs k th pop0 cl0 app cl D
-| HS_done : tph th = PIdle -> tcalls th = [] -> tloop th = LNone ->
+| HS_done : tph th = PIdle -> tcalls th = [] -> tloop th = LNone -> In RDoneWg (tres th) ->
     D = pop0 -> (forall j, 1 <= j <= k -> app j = rr k (pred j) D) -> pop0 = vs -> cl0 = true ->
     (forall j, 1 <= j <= k -> cl j = true) -> splith_ok vs k th pop0 cl0 app cl D.
 
@@ -324,7 +318,7 @@ Proof.
   unfold step in Hstep. unfold view_app, view_cl in *.
   destruct Hok as [cur Hph Hc Hl Hcur HD Ha Hop|cur Hph Hc Hl Hcur HD Ha Hop
                   |v cu cur Hph Hc Hl Hcur HD Hcu Ha Hop|v cu cur Hph Hc Hl Hcur HD Hcu Ha Hop
-                  |m Hph Hc Hl Hm HD Ha Hvs Hc0 Hc1 Hc2|Hph Hc Hl HD Ha Hvs Hc0 Hc1];
+                  |m Hph Hc Hl Hm HD Ha Hvs Hc0 Hc1 Hc2|Hph Hc Hl Hdn HD Ha Hvs Hc0 Hc1];
     rewrite Hph, Hc in Hstep.
   - (* HS_idle *)
     destruct (0 <? qtok (getq c 0)) eqn:Htok.
@@ -367,7 +361,7 @@ Proof.
     destruct (Nat.eq_dec m k) as [->|Hne].
     + unfold close_calls in Hstep. rewrite Nat.sub_diag in Hstep. simpl in Hstep.
       injection Hstep as <-. exists D. gs.
-      apply HS_done; simpl; auto.
+      apply HS_done; simpl; auto. apply in_or_app; simpl; auto.
     + unfold close_calls in Hstep. rewrite seq_S_cons in Hstep by lia. simpl in Hstep.
       rewrite (Hc2 (S m)) in Hstep by lia.
       injection Hstep as <-. exists D. gs. simpl.
@@ -387,7 +381,7 @@ Proof.
   intros Hk Hok. unfold opof.
   destruct Hok as [cur Hph Hc Hl Hcur HD Ha Hop|cur Hph Hc Hl Hcur HD Ha Hop
                   |v cu cur Hph Hc Hl Hcur HD Hcu Ha Hop|v cu cur Hph Hc Hl Hcur HD Hcu Ha Hop
-                  |m Hph Hc Hl Hm HD Ha Hvs Hc0 Hc1 Hc2|Hph Hc Hl HD Ha Hvs Hc0 Hc1];
+                  |m Hph Hc Hl Hm HD Ha Hvs Hc0 Hc1 Hc2|Hph Hc Hl Hdn HD Ha Hvs Hc0 Hc1];
     rewrite Hph, ?Hc.
   - intros E; injection E as <- <-. auto.
   - intros E; injection E as <- <-. auto.
@@ -411,7 +405,7 @@ Proof.
   assert (Hcl : forall j, 1 <= j <= k -> cl' j = cl j) by (intros; now apply H).
   destruct Hok as [cur Hph Hc Hl Hcur HD Ha Hop|cur Hph Hc Hl Hcur HD Ha Hop
                   |v cu cur Hph Hc Hl Hcur HD Hcu Ha Hop|v cu cur Hph Hc Hl Hcur HD Hcu Ha Hop
-                  |m Hph Hc Hl Hm HD Ha Hvs Hc0 Hc1 Hc2|Hph Hc Hl HD Ha Hvs Hc0 Hc1].
+                  |m Hph Hc Hl Hm HD Ha Hvs Hc0 Hc1 Hc2|Hph Hc Hl Hdn HD Ha Hvs Hc0 Hc1].
   - apply HS_idle with cur; auto; intros j Hj; rewrite ?Ha', ?Hcl by lia; auto.
   - apply HS_pop with cur; auto; intros j Hj; rewrite ?Ha', ?Hcl by lia; auto.
   - apply HS_add with v cu cur; auto; intros j Hj; rewrite ?Ha', ?Hcl by lia; auto.
@@ -427,7 +421,7 @@ Proof.
   intros Hok.
   destruct Hok as [cur Hph Hc Hl Hcur HD Ha Hop|cur Hph Hc Hl Hcur HD Ha Hop
                   |v cu cur Hph Hc Hl Hcur HD Hcu Ha Hop|v cu cur Hph Hc Hl Hcur HD Hcu Ha Hop
-                  |m Hph Hc Hl Hm HD Ha Hvs Hc0 Hc1 Hc2|Hph Hc Hl HD Ha Hvs Hc0 Hc1];
+                  |m Hph Hc Hl Hm HD Ha Hvs Hc0 Hc1 Hc2|Hph Hc Hl Hdn HD Ha Hvs Hc0 Hc1];
     split; auto; subst; try apply prefix_refl. apply prefix_app_l.
 Qed.
 
@@ -457,7 +451,7 @@ Inductive joinh_ok (vs : list Z) (k : nat) (th : thread) (pops : nat -> list Z)
 | HJ_done1 : tph th = PIdle -> tcalls th = [CDone] -> tloop th = LNone ->
     F = appo -> F = vs -> clo = true ->
     (forall j, 1 <= j <= k -> pops j = rr k (pred j) F) -> joinh_ok vs k th pops appo clo F
-| HJ_done : tph th = PIdle -> tcalls th = [] -> tloop th = LNone ->
+| HJ_done : tph th = PIdle -> tcalls th = [] -> tloop th = LNone -> In RDoneWg (tres th) ->
     F = appo -> F = vs -> clo = true ->
     (forall j, 1 <= j <= k -> pops j = rr k (pred j) F) -> joinh_ok vs k th pops appo clo F.
 
@@ -476,7 +470,7 @@ Proof.
   unfold step in Hstep. unfold view_pop in *.
   destruct Hok as [cur Hph Hc Hl Hcur HF Hcl Hp|cur Hph Hc Hl Hcur HF Hcl Hp
                   |v cur Hph Hc Hl Hcur HF Hcl Hp|v cur Hph Hc Hl Hcur HF Hcl Hp
-                  |Hph Hc Hl HF Hvs Hcl Hp|Hph Hc Hl HF Hvs Hcl Hp|Hph Hc Hl HF Hvs Hcl Hp];
+                  |Hph Hc Hl HF Hvs Hcl Hp|Hph Hc Hl HF Hvs Hcl Hp|Hph Hc Hl Hdn HF Hvs Hcl Hp];
     pose proof Hc as Hc'; rewrite Hph, Hc in Hstep.
   - (* HJ_idle *)
     assert (Hlt : cur < k) by (subst cur; apply Nat.mod_upper_bound; lia).
@@ -516,7 +510,7 @@ Proof.
   - (* HJ_close *)
     rewrite Hcl in Hstep. injection Hstep as <-. exists F. gs. simpl.
     apply HJ_done1; simpl; auto. intros j Hj. gs. now apply Hp.
-  - injection Hstep as <-. exists F. gs. apply HJ_done; simpl; auto.
+  - injection Hstep as <-. exists F. gs. apply HJ_done; simpl; auto. apply in_or_app; simpl; auto.
   - discriminate.
 Qed.
 
@@ -529,7 +523,7 @@ Proof.
   intros Hk Hok. unfold opof.
   destruct Hok as [cur Hph Hc Hl Hcur HF Hcl Hp|cur Hph Hc Hl Hcur HF Hcl Hp
                   |v cur Hph Hc Hl Hcur HF Hcl Hp|v cur Hph Hc Hl Hcur HF Hcl Hp
-                  |Hph Hc Hl HF Hvs Hcl Hp|Hph Hc Hl HF Hvs Hcl Hp|Hph Hc Hl HF Hvs Hcl Hp];
+                  |Hph Hc Hl HF Hvs Hcl Hp|Hph Hc Hl HF Hvs Hcl Hp|Hph Hc Hl Hdn HF Hvs Hcl Hp];
     rewrite Hph, ?Hc; try discriminate;
     try (assert (Hlt : cur < k) by (subst cur; apply Nat.mod_upper_bound; lia));
     intros E; injection E as <- <-; auto.
@@ -546,7 +540,7 @@ Proof.
   intros Hok -> -> H.
   destruct Hok as [cur Hph Hc Hl Hcur HF Hcl Hp|cur Hph Hc Hl Hcur HF Hcl Hp
                   |v cur Hph Hc Hl Hcur HF Hcl Hp|v cur Hph Hc Hl Hcur HF Hcl Hp
-                  |Hph Hc Hl HF Hvs Hcl Hp|Hph Hc Hl HF Hvs Hcl Hp|Hph Hc Hl HF Hvs Hcl Hp].
+                  |Hph Hc Hl HF Hvs Hcl Hp|Hph Hc Hl HF Hvs Hcl Hp|Hph Hc Hl Hdn HF Hvs Hcl Hp].
   - apply HJ_idle with cur; auto; intros j Hj; rewrite H by lia; auto.
   - apply HJ_pop with cur; auto; intros j Hj; rewrite H by lia; auto.
   - apply HJ_add with v cur; auto; intros j Hj; rewrite H by lia; auto.
